@@ -43,6 +43,8 @@ type H struct {
 
 var cur *H
 
+var snapBuf []byte // reused for the before-image of the heap
+
 var helper *malloc.VerifC10Helper
 
 // the helper functions whose regenerated Lean terms are interpreted by wamodel_c10wat
@@ -341,7 +343,10 @@ func (x *H) snapshot(b []byte) (snap []byte, lo int32) {
 	if hp <= lo || int64(hp) > int64(len(b)) || hp-lo > 32<<20 {
 		return nil, lo
 	}
-	snap = make([]byte, hp-lo)
+	if cap(snapBuf) < int(hp-lo) {
+		snapBuf = make([]byte, hp-lo, 2*(hp-lo))
+	}
+	snap = snapBuf[:hp-lo]
 	copy(snap, b[lo:hp])
 	return
 }
